@@ -165,8 +165,8 @@ def multipleOf(validator, dB, instance, schema):
         return
 
     if isinstance(dB, float):
-        quotient = instance / dB
         try:
+            quotient = instance / dB
             failed = int(quotient) != quotient
         except OverflowError:
             # When `instance` is large and `dB` is less than one,
@@ -181,7 +181,12 @@ def multipleOf(validator, dB, instance, schema):
             # for already-slow enormous integers or Decimals.
             failed = (Fraction(instance) / Fraction(dB)).denominator != 1
     else:
-        failed = instance % dB
+        try:
+            failed = instance % dB
+        except OverflowError:
+            # A float `instance` and an integer `dB` too large to be
+            # converted to a float: fall back to exact arithmetic again.
+            failed = (Fraction(instance) / Fraction(dB)).denominator != 1
 
     if failed:
         yield ValidationError("%r is not a multiple of %r" % (instance, dB))
